@@ -36,6 +36,7 @@ use super::constant::envvar_key;
 use super::constant::panic_msg;
 use super::error::EncodeError;
 use super::error::SourceError;
+use super::error::SourceErrorReason;
 use super::error::Verified;
 use super::error::VerifyError;
 use super::source::Context;
@@ -273,7 +274,11 @@ impl Fill for ParContext {
         Ok(())
     }
 
-    fn fill_le_bytes(&mut self, bytes: &[u8], _bytes_per_sample: usize) -> Result<(), SourceError> {
+    fn fill_le_bytes(&mut self, bytes: &[u8], bytes_per_sample: usize) -> Result<(), SourceError> {
+        if !bytes.is_empty() && bytes_per_sample != self.bytes_per_sample {
+            // same check as in `Context::fill_le_bytes`.
+            return Err(SourceError::by_reason(SourceErrorReason::InvalidBuffer));
+        }
         self.bytebuf.clear();
         self.bytebuf.extend_from_slice(bytes);
         self.enqueue_buffer();
@@ -374,8 +379,7 @@ pub fn encode_with_fixed_block_size<T: Source>(
     // only one frame that is shorter than `block_size`.
     stream
         .stream_info_mut()
-        .set_block_sizes(block_size, block_size)
-        .unwrap();
+        .set_block_sizes(block_size, block_size)?;
 
     let worker_count = determine_worker_count(&config)?;
     let parbuf = Arc::new(ParFrameBuf::new(
